@@ -393,3 +393,165 @@ def check_C10(chk):
 
 
 CHECKS["C10"] = check_C10
+
+
+# ---------------------------------------------------------------------------------------
+# C12: values pass through mocks unchanged
+# ---------------------------------------------------------------------------------------
+def gen_C12(chk):
+    import struct
+    rng = chk.rng
+    big = chk.tier == "thorough"
+    cases = []
+    ints = BOUND + [rng.randrange(-2**63, 2**63) for _ in range(2000 if big else 60)] + \
+        [s * (1 << k) + d for k in range(1, 63, 3) for s in (1, -1) for d in (-1, 0, 1)]
+    for v in ints:
+        if -2**63 <= v < 2**63:
+            cases.append(("R", v))
+    # doubles as bit patterns
+    dbl = [0, 1 << 63, 1, (1 << 63) | 1, 0x000fffffffffffff, 0x0010000000000000, 0x7ff0000000000000, 0xfff0000000000000,
+           0x7ff0000000000001, 0x7ff8000000000000, 0xfff8000000000001, 0x7ff4000000000abc, 0x7fffffffffffffff, 0xffffffffffffffff,
+           0x3ff0000000000000, 0x4010eb851eb851ec, 0x7fefffffffffffff]
+    dbl += [rng.getrandbits(64) for _ in range(5000 if big else 200)]
+    dbl += [(0x7ff << 52) | rng.getrandbits(52) | (rng.getrandbits(1) << 63) for _ in range(1000 if big else 60)]   # NaN payloads
+    dbl += [rng.getrandbits(52) | (rng.getrandbits(1) << 63) for _ in range(300 if big else 30)]                  # subnormals
+    for b in dbl:
+        cases.append(("D", b))
+    # structures by value: every size in a range, random content
+    for size in (list(range(0, 258)) if big else [0, 1, 2, 3, 4, 7, 8, 9, 15, 16, 17, 24, 31, 32, 33, 63, 64, 65, 127, 128, 129, 255, 256, 257]):
+        cases.append(("B", size, bytes(rng.randrange(256) for _ in range(size))))
+    for _ in range(300 if big else 20):
+        size = rng.choice([1, 5, 12, 100, 1000, 4096, 5000])
+        cases.append(("B", size, bytes(rng.randrange(256) for _ in range(size))))
+    # one expectation serving several calls (times(n), always_expect)
+    for mode, calls in (("e", 2), ("e", 3), ("a", 2), ("a", 5)):
+        for size in ([1, 8, 24, 257] if not big else [0, 1, 3, 8, 24, 100, 257, 1000]):
+            cases.append(("B", size, bytes(rng.randrange(256) for _ in range(size)), mode, calls))
+        for v in (rng.choice(ints), 2**32 + 1, -1):
+            cases.append(("R", v, mode, calls))
+    # output parameters: every (offset, size) in a small guarded buffer, plus larger ones
+    for buflen in ([8, 16, 33] if not big else [1, 2, 8, 16, 33, 64]):
+        for off in range(buflen + 1):
+            for size in sorted(set([0, 1, 2, 3, 4, 7, 8, buflen - off]) if not big else set(range(0, buflen - off + 1))):
+                if 0 <= size <= buflen - off:
+                    cases.append(("S", buflen, off, size, bytes(rng.randrange(256) for _ in range(size))))
+    for _ in range(200 if big else 20):
+        buflen = rng.choice([64, 100, 1000, 4096])
+        off = rng.randrange(buflen + 1)
+        size = rng.choice([0, 1, buflen - off, rng.randrange(buflen - off + 1)])
+        cases.append(("S", buflen, off, size, bytes(rng.randrange(256) for _ in range(size))))
+    # captures: every size x position x arity, values that expose truncation / wrong half / sign
+    cvals = [0, 1, -1, 0x7f, 0x80, 0xff, 0x100, 0x7fff, 0x8000, 0xffff, 0x10000, 0x7fffffff, 0x80000000, 0xffffffff, 0x100000000,
+             0x0102030405060708, -0x0102030405060708, 2**63 - 1, -2**63, 0x00000001ffffffff, -2**31, -2**31 - 1]
+    for size in (1, 2, 4, 8):
+        for arity in range(1, 9):
+            for pos in range(arity):
+                vs = cvals if (big or pos in (0, arity - 1)) else [rng.choice(cvals), rng.choice(cvals)]
+                for v in vs:
+                    cases.append(("C", size, pos, arity, v))
+                cases.append(("C", size, pos, arity, rng.randrange(-2**63, 2**63)))
+    return cases
+
+
+def fmt_C12(c):
+    k = c[0]
+    if k == "R" and len(c) > 2:
+        return "R %d %s %d" % c[1:], "(R %d %d)" % (c[1], c[3])
+    if k == "R":
+        return "R %d" % c[1], "(R %d)" % c[1]
+    if k == "D":
+        return "D %016x" % c[1], "(D %d)" % c[1]
+    if k == "B" and len(c) > 3:
+        return "B %d %s %s %d" % (c[1], hexs(c[2]), c[3], c[4]), "(B %d %s %d)" % (c[1], sxb(c[2]), c[4])
+    if k == "B":
+        return "B %d %s" % (c[1], hexs(c[2])), "(B %d %s)" % (c[1], sxb(c[2]))
+    if k == "S":
+        return "S %d %d %d %s" % (c[1], c[2], c[3], hexs(c[4])), "(S %d %d %d %s)" % (c[1], c[2], c[3], sxb(c[4]))
+    if k == "C":
+        return "C %d %d %d %d" % c[1:], "(C %d %d)" % (c[1], c[4])
+
+
+def oracle_C12(c):
+    """what the property says must come out (canonical text, same form as the model's)"""
+    k = c[0]
+    if k == "R":
+        return "R " + ";".join([str(c[1])] * (c[3] if len(c) > 2 else 1))
+    if k == "D":
+        return "D %d" % c[1]
+    if k == "B":
+        return "B " + ";".join([hexs(c[2][:c[1]])] * (c[4] if len(c) > 3 else 1))
+    if k == "S":
+        buflen, off, size, src = c[1:]
+        buf = bytearray((0xC0 + i % 16) for i in range(buflen))
+        buf[off:off + size] = src[:size]
+        return "S " + hexs(bytes(buf))
+    if k == "C":
+        size, pos, arity, v = c[1:]
+        return "C %d %d" % (v % (1 << (8 * size)), size)
+
+
+def canon_impl_C12(c, o):
+    """implementation output -> canonical text"""
+    toks = o.split()
+    failed = toks and toks[-1] == "FAIL"
+    if failed:
+        toks = toks[:-1]
+    k = c[0]
+    try:
+        if k == "R":
+            res = "R " + ";".join(str(int(x)) for x in toks[1].split(";"))
+        elif k == "D":
+            a, b = int(toks[1], 16), int(toks[2], 16)
+            res = "D %d" % a if a == b else "D %d/%d" % (a, b)
+        elif k == "B":
+            res = "B " + toks[1]
+        elif k == "S":
+            res = "S " + toks[1]
+        else:
+            res = "C %d %d" % (int(toks[1]), c[1]) + ("" if toks[2] == "1" else " canary-overwritten")
+    except (IndexError, ValueError):
+        res = "garbled: " + o[:80]
+    return res + (" FAIL" if failed else "")
+
+
+def check_C12(chk):
+    import check_containers as CC
+    vlib.build_repo("hooks")
+    build = vlib.build_repo("asan")
+    drv = vlib.build_driver("probe_values", build)
+    chk.prove(["Properties_C12.v"])
+    chk.cov["trusted_base"] = TRUSTED_P[:1] + [
+        "tools/srcfacts_c12.py (clang JSON AST + regex over the will_* macros): the stored/loaded expressions, copied pointers and byte counts of create_return_value_constraint, mock_(), create_return_by_value_constraint, stored_result_or_default_for, create_set_parameter_value_constraint, set_contents, create_capture_parameter_constraint, capture_parameter, box_double/as_double/unbox_double are re-derived from source on every run",
+        "extraction: ExtrOcamlBasic only; ocaml/h_values.ml glue",
+        "correspondence: harness/probe_values.c through the public macros, built with ASan+UBSan against a sanitizer build of /repo (exact-size heap blocks, canaries around captured variables); differential testing",
+        "modelled, not verified: malloc/memcpy/memmove semantics (bounds-checked block copies in Values.v); that assigning or passing a C double copies its 64 bits (x86-64 SSE; exercised by the sweep over NaN payloads, signed zeros, subnormals); the varargs ABI collecting the actuals",
+        "axioms: see coverage.print_assumptions"]
+    gen = chk.cov.get("gen_items", {})
+    if not str(gen.get("values_src", "")).startswith("derived"):
+        chk.notes.append("values_src: %s" % gen.get("values_src"))
+    cases = gen_C12(chk)
+    impl_lines, model_lines = zip(*(fmt_C12(c) for c in cases))
+    impl = CC.run_vm(drv, list(impl_lines))
+    model = vlib.run_model("values", list(model_lines))
+    for c, il, (o, san), m in zip(cases, impl_lines, impl, model):
+        chk.case(il)
+        chk.count("kind:" + c[0] + (":size%d" % c[1] if c[0] == "C" else ""))
+        chk.cov["disagreements_checked"] += 1
+        rp = {"case": il[:4000], "how": "echo '<case>' | ASAN_OPTIONS=detect_leaks=0 _work/bin-asan/probe_values"}
+        exp = oracle_C12(c)
+        if san is not None:
+            chk.violation("memory-" + c[0], "transporting a value made cgreen touch memory it must not: %s (case %s)" % (san, il[:160]), dict(rp, sanitizer=san))
+            if "OOB" not in m:
+                chk.disagreement("%s: implementation out of bounds (%s), model %s" % (il[:120], san, m[:80]), rp)
+            continue
+        got = canon_impl_C12(c, o)
+        if got != m:
+            chk.disagreement("%s: implementation [%s] model [%s]" % (il[:120], got[:200], m[:200]), rp)
+        if got != exp:
+            chk.violation("value-" + c[0] + (":%d" % c[1] if c[0] == "C" else ""),
+                          "%s: came out as [%s], the property requires [%s]" % (il[:160], got[:200], exp[:200]), rp)
+        chk.sample({"case": il[:80], "result": got[:80]}, limit=6)
+    return chk.finish()
+
+
+CHECKS["C12"] = check_C12
